@@ -205,7 +205,7 @@ def run(ctx):
                 viol.append({"t": t, "arms": arms, "program": src, "value": val_erg(v), "observed": c,
                              "what": ("the program crashes" if not isinstance(c, int) else "arm %d runs, whose pattern does not match the value" % c)})
     ctx.cov["known_class_instances"] = {"bool-int": known}
-    for kf in ctx.known():
+    for kf in known_entries("C33"):
         if kf.get("class") == "bool-int":
             # the witness is replayed on every run
             w = kf["witness"]
